@@ -1064,13 +1064,23 @@ pub mod implementations {
             .parse::<isize>()
             .context("jmp_not_nil needs lines_to_jump: isize")?;
 
-        if let Primitive::Optional(None) = primitive
+        let present = match primitive
             .move_out_of_heap_primitive_borrow()
             .context("could not move out of heap primitive")?
             .as_ref()
         {
-            ctx.pop();
-            return Ok(());
+            Primitive::Optional(None) => {
+                ctx.pop();
+                return Ok(());
+            }
+            // a present optional produced by a built-in (`index_of`, `remove`, `parse_int`) carries
+            // a wrapper: `x or y` yields the value itself, as `get x` does
+            Primitive::Optional(Some(inner)) => Some(inner.as_ref().clone()),
+            _ => None,
+        };
+
+        if let Some(present) = present {
+            ctx.set_last_op_item(present);
         }
 
         ctx.signal(InstructionExitState::Goto(lines_to_jump));
